@@ -4,7 +4,7 @@ import . "goa.design/goa/v3/dsl"
 
 var _ = API("a4", func() {})
 
-// two base paths that use the same wildcards in a different order
+// two base paths that use the same wildcards (of different types) in a different order
 var _ = Service("memberships", func() {
 	HTTP(func() {
 		Path("/tenants/{tenant}/users/{user}")
@@ -13,7 +13,7 @@ var _ = Service("memberships", func() {
 	Method("show", func() {
 		Payload(func() {
 			Attribute("tenant", String)
-			Attribute("user", String)
+			Attribute("user", Int)
 			Attribute("part", String)
 			Required("tenant", "user", "part")
 		})
